@@ -97,6 +97,7 @@ v('C07', 'fire', KA, 'cho_solve((L, True), HP', 'cho_solve((L, False), HP')
 v('C07', 'fire', KA, 'S = HP @ H.T + R', 'S = HP @ H.T')
 v('C07 C19', 'fire', KA, 'K = cho_solve((L, True), HP, overwrite_b=True).T', 'K = cho_solve((L, True), P, overwrite_b=True).T')
 v('C07', 'silent', KA, 'U = np.eye(len(x)) - K.dot(H)', 'U = np.identity(len(x)) - K @ H')
+v('C05', 'fire', 'error_model.py', '            result = self.TRANSFORM_2D_3D @ result\n        return result', '            result = np.linalg.pinv(self._transform_3d_2d(pva.VN, pva.VE)) @ result\n        return result', 'seeded C05 round 3: 2-D reduction by the pseudo-inverse of the embedding (vertical velocity error leaks into tilt)')
 v('C09 C12', 'fire', 'filters.py', "integrator.predict((measurement_time - time) / increment['dt'] *", "integrator.predict((measurement_time - time) / time_step *", 'feedback epoch state: fraction of the covariance step instead of the sampling interval')
 v('C09 C12', 'fire', 'filters.py', "pd.Series(increment[THETA_COLS].values / increment['dt'],", "pd.Series(increment[DV_COLS].values / increment['dt'],", 'feedback epoch state: body rates from the velocity increment')
 v('C09 C12', 'silent', 'filters.py', "integrator.predict((measurement_time - time) / increment['dt'] *\n                                   increment),", "integrator.predict(increment * (measurement_time - time) / increment['dt']),", 'same scaled increment, other operand order')
